@@ -9,12 +9,22 @@ import numpy as np
 RGB_DTYPE = np.dtype([("R", "u1"), ("G", "u1"), ("B", "u1")])
 
 
-def write_nifti(path, raw, affine, slope=None, inter=None):
+def write_nifti(path, raw, affine, slope=None, inter=None,
+                big_endian=False):
     """raw: array in nibabel (Fortran, X,Y,Z[,T]) index order with the stored
     dtype (or RGB_DTYPE).  The header scaling fields are patched in place so
-    that the stored values stay exactly `raw`."""
-    img = nib.Nifti1Image(raw, np.asarray(affine, dtype=float),
-                          dtype=raw.dtype)
+    that the stored values stay exactly `raw`.  big_endian writes a
+    big-endian file (header and data), as scanners / older tools do."""
+    if big_endian and raw.dtype != RGB_DTYPE:
+        hdr = nib.Nifti1Header(endianness=">")
+        hdr.set_data_dtype(raw.dtype)
+        img = nib.Nifti1Image(raw.astype(raw.dtype.newbyteorder(">")),
+                              np.asarray(affine, dtype=float), header=hdr)
+        assert img.header.endianness == ">"
+    else:
+        big_endian = False
+        img = nib.Nifti1Image(raw, np.asarray(affine, dtype=float),
+                              dtype=raw.dtype)
     img.header.set_data_dtype(raw.dtype)
     img.header.set_slope_inter(None, None)
     plain = path[:-3] if path.endswith(".gz") else path
@@ -22,7 +32,8 @@ def write_nifti(path, raw, affine, slope=None, inter=None):
     if slope is not None:
         with open(plain, "r+b") as f:
             f.seek(112)
-            f.write(struct.pack("<ff", slope, 0.0 if inter is None else inter))
+            f.write(struct.pack(">ff" if big_endian else "<ff", slope,
+                                0.0 if inter is None else inter))
     if path.endswith(".gz"):
         with open(plain, "rb") as f, gzip.open(path, "wb") as g:
             g.write(f.read())
@@ -36,8 +47,11 @@ def load_checked(path, raw, slope=None, inter=None):
     scaling.  Returns (img, ok)."""
     img = nib.load(path)
     got = np.asarray(img.dataobj.get_unscaled())
-    ok = got.shape == raw.shape and got.dtype == raw.dtype and (
-        got.tobytes() == np.asarray(raw).tobytes())
+    same_type = got.dtype == raw.dtype or (
+        raw.dtype.names is None and
+        got.dtype.newbyteorder("=") == raw.dtype.newbyteorder("="))
+    ok = got.shape == raw.shape and same_type and (
+        got.astype(raw.dtype).tobytes() == np.asarray(raw).tobytes())
     if slope is not None:
         s = float(np.float32(slope))
         i = float(np.float32(0.0 if inter is None else inter))
